@@ -121,6 +121,33 @@ impl Alphabet {
                 return Some(format!("get({}) = {:?} but the reference says {:?}", TYPE_NAMES[i], got, want));
             }
         }
+        // the enumeration as an Iterator: what it says about its own length agrees with what it yields, fresh and after any
+        // number of steps (count, size_hint, last, nth), and a second enumeration yields the same
+        let n = m.len();
+        if dn.iter().count() != n {
+            return Some(format!("iter().count() = {} for {} attributes", dn.iter().count(), n));
+        }
+        for k in 0..=n + 1 {
+            let mut it = dn.iter();
+            for _ in 0..k {
+                it.next();
+            }
+            let (lo, hi) = it.size_hint();
+            let left = n.saturating_sub(k);
+            if lo > left || hi.map(|h| h < left).unwrap_or(false) {
+                return Some(format!("after {} steps size_hint() = ({}, {:?}) but {} attributes are left", k, lo, hi, left));
+            }
+            let c = it.count();
+            if c != left {
+                return Some(format!("after {} steps count() = {} but {} attributes are left", k, c, left));
+            }
+            if dn.iter().skip(k).count() != left || dn.iter().nth(k).is_some() != (k < n) {
+                return Some(format!("skip({}) / nth({}) disagree with the enumeration of {} attributes", k, k, n));
+            }
+        }
+        if dn.iter().last().map(|(t, _)| t.clone()) != dn.iter().nth(n.wrapping_sub(1)).map(|(t, _)| t.clone()) && n > 0 {
+            return Some("last() is not the n-th element".into());
+        }
         let (order, entries) = self.internal_key(dn);
         let mut o2 = order.clone();
         o2.sort();
